@@ -28,6 +28,12 @@ class Untranslatable(Exception):
     pass
 
 
+# methods whose bodies are translation targets themselves or primitives by contract: never inlined as helpers
+TRANSLATED_METHODS = {'double', 'vartime_compress_to_field', 'vartime_compress', 'vartime_decompress', 'elligator_map', 'neg', 'eq', 'is_identity',
+                      'square', 'abs', 'is_negative', 'is_nonnegative', 'clone', 'into', 'add', 'sub', 'mul', 'sqrt_ratio_zeta',
+                      'non_arkworks_sqrt_ratio_zeta', 'pow', 'inverse', 'to_bytes_le', 'from_bytes_checked', 'hash_to_curve', 'encode_to_curve'}
+
+
 # ---------------------------------------------------------------------------------------------- parsing
 
 class Parser:
@@ -410,6 +416,42 @@ class Sym:
         self.depth = 0
         self.repo = None
 
+    def method_helper(self, name, nargs):
+        """a helper *method* `fn name(self | &self, a: T, …) { lets; tail }` defined once under src/: (params incl. self, body)"""
+        if self.repo is None:
+            return None
+        found = []
+        for root, _, files in os.walk(os.path.join(self.repo, 'src')):
+            for fn in files:
+                if not fn.endswith('.rs') or '/fiat' in root:
+                    continue
+                src = open(os.path.join(root, fn)).read()
+                for m in re.finditer(r'\bfn\s+%s\s*\(([^)]*)\)[^{;]*\{' % re.escape(name), src):
+                    params = [x.strip() for x in m.group(1).split(',') if x.strip()]
+                    if not params or not re.match(r'(&\s*)?(mut\s+)?self\b', params[0]) or len(params) - 1 != nargs:
+                        continue
+                    names = ['self']
+                    for x in params[1:]:
+                        mm = re.match(r'(?:mut\s+)?([A-Za-z_]\w*)\s*:', x)
+                        if not mm:
+                            names = None
+                            break
+                        names.append(mm.group(1))
+                    if names is None:
+                        continue
+                    depth, e = 1, m.end()
+                    while depth and e < len(src):
+                        depth += src[e] == '{'
+                        depth -= src[e] == '}'
+                        e += 1
+                    found.append((names, src[m.end() - 1:e]))
+        if len(found) != 1:
+            return None
+        try:
+            return found[0][0], Parser(tokenize(found[0][1])).block()
+        except Untranslatable:
+            return None
+
     def helper(self, name, nargs):
         """a free helper function `fn name(a: &Fq, …) -> … { lets; tail }` defined once under src/ (not a method): (params, body)"""
         if self.repo is None or name in ('new', 'from', 'Ok', 'Err', 'Some'):
@@ -485,6 +527,11 @@ class Sym:
     def bad(self, what):
         raise Untranslatable(what)
 
+    def extarg(self, comps):
+        if self.cfg['ext_add'].startswith('Gen.Formulas.'):
+            return ' '.join(comps)               # the translated formula takes the eight coordinates
+        return '(⟨%s, %s, %s, %s⟩ : Ext)' % tuple(comps)
+
     # ---- expressions
     def ev(self, e, env):
         k = e[0]
@@ -507,6 +554,9 @@ class Sym:
             b, tb = self.ev(e[3], env)
             if ta == 'fq' and tb == 'fq' and op in '+-*':
                 return ('(%s q %s %s)' % ({'+': 'fadd', '-': 'fsub', '*': 'fmul'}[op], a, b), 'fq')
+            if op == '+' and ta == tb == 'ext' and self.cfg.get('ext_add'):
+                E = '(%s %s %s)' % (self.cfg['ext_add'], self.extarg(a), self.extarg(b))
+                return (tuple('%s.%s' % (E, c) for c in 'XYZT'), 'ext')
             if op in ('==', '!=') and (ta == tb or 'int' in (ta, tb)) and ta in ('fq', 'bool', 'u8', 'int'):
                 return ('(%s %s %s)' % (a, op, b), 'bool')
             if op in ('&&', '||') and ta == tb == 'bool':
@@ -559,6 +609,14 @@ class Sym:
                 err, te = self.ev(args[0][1], env)
                 if te == 'errk':
                     return ((a[0], err), 'resfq')
+            if t in ('fq', 'ext') and name not in TRANSLATED_METHODS:
+                hp = self.method_helper(name, len(args))
+                if hp is not None and self.depth <= 6:
+                    self.depth += 1
+                    try:
+                        return self.ev_block(hp[1], dict(zip(hp[0], [(a, t)] + [self.ev(x, env) for x in args])))
+                    finally:
+                        self.depth -= 1
             raise Untranslatable('method .%s on %s' % (name, t))
         if k == 'call':
             if e[1][0] != 'path':
@@ -587,6 +645,11 @@ class Sym:
                 a, t = self.ev(args[0], env)
                 if t == 'bytes':
                     return ((a, '.encoding' if f == 'Fq::from_bytes_checked' else None), 'resfq')
+            if f.split('::')[-1] in self.cfg.get('calls', {}) and f.split('::')[0] in ('Element', 'Self'):
+                tgt, kinds = self.cfg['calls'][f.split('::')[-1]]
+                vs = [self.ev(x, env) for x in args]
+                if [t for _, t in vs] == kinds:
+                    return ('Gen.Formulas.%s sr %s' % (tgt, ' '.join(v for v, _ in vs)), 'callopt')
             if f == 'Ok' and len(args) == 1:
                 a, t = self.ev(args[0], env)
                 return (a, t)
@@ -762,6 +825,13 @@ class Sym:
                 env[pat[1][1][1]] = (nv, 'fq')
                 return ('%smatch sr %s %s with\n%s| none => %s\n%s| some (%s, %s) =>\n' % (ind, v[0], v[1], ind, self.panic(), ind, nb, nv)
                         + self.run(rest, env, ind + '  '))
+            if t == 'callopt':
+                if pat[0] != 'pname':
+                    raise Untranslatable('pattern for a translated call')
+                n = self.fresh(pat[1])
+                env[pat[1]] = (tuple('%s.%s' % (n, c) for c in 'XYZT'), 'ext')
+                return ('%smatch %s with\n%s| none => %s\n%s| some %s =>\n' % (ind, v, ind, self.panic(), ind, n)
+                        + self.run(rest, env, ind + '  '))
             if t == 'tryfq':
                 if pat[0] != 'pname' or self.mode != 'except' or v[1] is None:
                     raise Untranslatable('? in this position')
@@ -827,6 +897,8 @@ class Sym:
             if rest or s[2]:
                 raise Untranslatable('expression statement')
             v, t = self.ev(s[1], env)
+            if t == 'callopt' and self.mode == 'option' and self.cfg['ret'] == 'ext':
+                return ind + v
             return self.flush(ind) + ind + self.ret(v, t)
         raise Untranslatable('statement %s' % k)
 
@@ -1101,6 +1173,18 @@ TARGETS = [
          new_order=None, fallback='Ext.eq ⟨X1, Y1, Z1, T1⟩ ⟨X2, Y2, Z2, T2⟩', lean_ret='Bool'),
     dict(name='ark_is_identity', file='src/ark_curve/element/projective.rs', impl=r'impl\s+Element\s*\{', fn='is_identity', mode='pure', ret='bool',
          params='(X Y Z T : Nat)', env={'self': EXT1}, new_order=None, fallback='Ext.isIdentity ⟨X, Y, Z, T⟩', lean_ret='Bool'),
+    dict(name='min_hash_to_curve', file='src/min_curve/element.rs', impl=r'impl\s+Element\s*\{', fn='hash_to_curve', mode='option', ret='ext',
+         params='(sr : SR) (r1 r2 : Nat)', env={'r_1': ('r1', 'fq'), 'r_2': ('r2', 'fq')}, new_order='xyzt', calls={'elligator_map': ('min_elligator', ['fq'])},
+         ext_add='Gen.Formulas.min_add', fallback='hashToCurve sr ZETA_min Ext.addMin r1 r2', lean_ret='Option Ext'),
+    dict(name='min_encode_to_curve', file='src/min_curve/element.rs', impl=r'impl\s+Element\s*\{', fn='encode_to_curve', mode='option', ret='ext',
+         params='(sr : SR) (r0 : Nat)', env={'r': ('r0', 'fq')}, new_order='xyzt', calls={'elligator_map': ('min_elligator', ['fq'])},
+         fallback='elligator sr ZETA_min r0', lean_ret='Option Ext'),
+    dict(name='ark_hash_to_curve', file='src/ark_curve/elligator.rs', impl=r'impl\s+Element\s*\{', fn='hash_to_curve', mode='option', ret='ext',
+         params='(sr : SR) (r1 r2 : Nat)', env={'r_1': ('r1', 'fq'), 'r_2': ('r2', 'fq')}, new_order=None, calls={'elligator_map': ('ark_elligator', ['fq'])},
+         ext_add='Ext.addRef', fallback='hashToCurve sr ZETA Ext.addRef r1 r2', lean_ret='Option Ext'),
+    dict(name='ark_encode_to_curve', file='src/ark_curve/elligator.rs', impl=r'impl\s+Element\s*\{', fn='encode_to_curve', mode='option', ret='ext',
+         params='(sr : SR) (r0 : Nat)', env={'r': ('r0', 'fq')}, new_order=None, calls={'elligator_map': ('ark_elligator', ['fq'])},
+         fallback='elligator sr ZETA r0', lean_ret='Option Ext'),
     dict(name='r1cs_compress', file='src/ark_curve/r1cs/inner.rs', impl=r'impl\s+ElementVar\s*\{', fn='compress_to_field', gadget=True, mode='pure', ret='fq',
          params='(x y : Nat) (h : R1cs.Hint)', env={'self': (('x', 'y'), 'pair')}, new_order=None, fallback='R1cs.compress x y h', lean_ret='Bool × Nat'),
     dict(name='r1cs_decompress', file='src/ark_curve/r1cs/inner.rs', impl=r'impl\s+ElementVar\s*\{', fn='decompress_from_field', gadget=True, mode='pure', ret='pair',
